@@ -4,6 +4,7 @@ package world
 
 import (
 	"fmt"
+	sneovm "github.com/ontio/ontology/smartcontract/service/neovm"
 	"os"
 	"strings"
 	"sync"
@@ -41,6 +42,11 @@ func Init() {
 		}
 		simhook.OpenStorageFn = openStorage
 	})
+	// process-global price table: a run that changes prices on chain must not
+	// leak them into the next run of this worker process
+	for k, v := range sneovm.INIT_GAS_TABLE {
+		sneovm.GAS_TABLE.Store(k, v)
+	}
 }
 
 // Scratch returns the per-process scratch directory (tmpfs).
